@@ -119,7 +119,27 @@ def registration(ctx):
     for name in calllike:
         ctx.check(name in rejects or any(("parsetree." + name) in t_ for r_ in guard for t_, v_ in facts_at(r_, vb, resolve_locals=True) if v_), "misplaced.class:" + name, db.where(vb), "tag class %s takes a body like <%%call> but named blocks inside it are not rejected" % name, "covered")
     ns = db.func("codegen._GenerateRenderMethod.write_namespaces")
-    ctx.check("Can't put anonymous blocks inside" in src(ns), "anon-in-namespace", db.where(ns), "anonymous blocks inside <%namespace> are not rejected", "rejected")
+    # the visitor that exports the defs written inside a <%namespace> tag (a class local to write_namespaces or one it instantiates)
+    # rejects anonymous blocks
+    vis = [c_ for c_ in ast.walk(ns) if isinstance(c_, ast.ClassDef)]
+    used = {dotted(c_.func) for c_ in walk_func(ns) if isinstance(c_, ast.Call) and dotted(c_.func)}
+    vis += [c_ for c_ in db.mod("codegen").tree.body if isinstance(c_, ast.ClassDef) and c_.name in used]
+    okv = False
+    for c_ in vis:
+        ms_ = {m_.name: m_ for m_ in c_.body if isinstance(m_, ast.FunctionDef)}
+        todo, seen_ = ["visitBlockTag"], set()
+        while todo:
+            nm_ = todo.pop()
+            if nm_ in seen_ or nm_ not in ms_:
+                continue
+            seen_.add(nm_)
+            m_ = ms_[nm_]
+            for x_ in walk_func(m_):
+                if isinstance(x_, ast.Call) and isinstance(x_.func, ast.Attribute) and isinstance(x_.func.value, ast.Name) and x_.func.value.id == pn(m_, 0):
+                    todo.append(x_.func.attr)
+                if isinstance(x_, ast.Raise) and isinstance(x_.exc, ast.Call) and (dotted(x_.exc.func) or "").endswith("CompileException") and len(m_.args.args) > 1 and ("%s.is_anonymous" % pn(m_, 1), True) in facts_at(x_, m_):
+                    okv = True
+    ctx.check(okv, "anon-in-namespace", db.where(ns), "anonymous blocks inside <%namespace> are not rejected", "rejected")
 
 
 def _anc(n):
